@@ -8,6 +8,7 @@ from struct import error as StructError
 from typing import Any, Awaitable, Callable, Dict, List, Optional, Set, Tuple, Type, TypeVar, Union
 from .broker import AbstractBroker, SimpleBroker
 from .correlator import (
+    STATUS_EXPIRED,
     STATUS_SENDING,
     STATUS_SENT,
     AbstractCorrelator,
@@ -708,6 +709,14 @@ class ESME:
             if segment_status:
                 if status_code == STATUS_SENDING:
                     # All segments are not processed yet, return placeholder
+                    smpp_message = _SUBMIT_SM_SEGMENT
+                elif status_code == STATUS_EXPIRED:
+                    # Another segment timed out: the message as a whole was not accepted
+                    await self.hook.send_error(
+                        segment_status.orig_submit_sm,
+                        TimeoutError('No response to command received within timeout'),
+                        self.client_id,
+                    )
                     smpp_message = _SUBMIT_SM_SEGMENT
                 else:
                     # Use last pertinent segment response
